@@ -89,11 +89,6 @@ Theorem C02_open_infers_the_interchange_level_refuted :
     ~ g_level (graph_of dt t) = 1.
 Proof. first [exact (@parse_infers_level_refuted) | apply (@parse_infers_level_refuted) | intros; eapply (@parse_infers_level_refuted); eassumption]. Qed.
 
-Theorem C02_open_of_a_truncated_image_refuted :
-  exists g c, ps_ex_cut_parse = POk g /\ nth_error (ps_all_recs g) 2 = Some c /\
-    p_ino c = Some 0%nat /\ nth_error (g_inodes g) 0 = Some (24, 2000) /\
-    p_dlen c = 24 * 2048 + 5000 /\ ~ p_dlen c = 2000.
-Proof. first [exact (@parse_truncation_refuted) | apply (@parse_truncation_refuted) | intros; eapply (@parse_truncation_refuted); eassumption]. Qed.
 
 Theorem C02_parse_nonvacuous :
   ps_tree_ok ps_ex_t = true /\
@@ -106,3 +101,34 @@ Theorem C02_parse_nonvacuous :
 Proof. first [exact (@ps_example_ok) | apply (@ps_example_ok) | intros; eapply (@ps_example_ok); eassumption]. Qed.
 
 End ParseStatementsC02.
+
+(* ---- truncated images (the repaired code, 10cfb30): for ANY image the parser accepts, a record that reaches past the end of the image -- and every record linked to the same Inode -- carries the bytes that are left; the code before the fix gave the records the absolute end offset: *)
+From PV.Base Require Prim ListX.
+From PV.Gen Require GenConst GenFun.
+From PV.Model Require Codec Pack PathTable Names Master Parse.
+From PV.Proofs Require ParseShare ParseShareWalk ParseTrunc ParseExamples.
+Section ParseTruncStatements.
+Import PV.Base.Prim PV.Base.ListX PV.Gen.GenConst PV.Gen.GenFun PV.Model.Codec PV.Model.Pack PV.Model.PathTable PV.Model.Names PV.Model.Master PV.Model.Parse PV.Proofs.ParseShare PV.Proofs.ParseShareWalk PV.Proofs.ParseTrunc PV.Proofs.ParseExamples.
+Local Open Scope Z_scope.
+Theorem C02_open_of_a_truncated_image_lengths fuel img ptr isz re rl g :
+  parse fuel img ptr isz re rl = POk g ->
+  forall c i, In c (ps_all_recs g) -> p_ino c = Some i ->
+  let e := ps_euse (p_rec c) in
+  exists l, nth_error (g_inodes g) i = Some (e, l) /\
+    (p_dlen c = data_len (p_rec c) \/ (p_dlen c = isz - e * BS /\ l = isz - e * BS)) /\
+    (e * BS + data_len (p_rec c) > isz -> p_dlen c = isz - e * BS /\ l = isz - e * BS).
+Proof. first [exact (@parse_truncation_lengths) | apply (@parse_truncation_lengths) | intros; eapply (@parse_truncation_lengths); eassumption]. Qed.
+
+Theorem C02_open_of_a_truncated_image_example :
+  exists g c, ps_ex_cut_parse = POk g /\ nth_error (ps_all_recs g) 2 = Some c /\
+    p_ino c = Some 0%nat /\ nth_error (g_inodes g) 0 = Some (24, 2000) /\
+    data_len (p_rec c) = 5000 /\ p_dlen c = 2000.
+Proof. first [exact (@parse_truncation_example) | apply (@parse_truncation_example) | intros; eapply (@parse_truncation_example); eassumption]. Qed.
+
+Theorem C02_open_of_a_truncated_image_before_the_fix_refuted :
+  exists isz st ext dl i d st1 e l,
+    ps_link_gen false isz st ext dl = (i, d, st1) /\ nth_error (s_inodes st1) i = Some (e, l) /\
+    l = isz - ext * 2048 /\ d = ext * 2048 + dl /\ d <> l.
+Proof. first [exact (@parse_truncation_refuted_old) | apply (@parse_truncation_refuted_old) | intros; eapply (@parse_truncation_refuted_old); eassumption]. Qed.
+
+End ParseTruncStatements.
